@@ -255,3 +255,5 @@ func VerifC01Honest() {
 }
 
 var _ = errors.New
+
+func ed25519Key(seed []byte) ed25519.PrivateKey { return ed25519.NewKeyFromSeed(seed) }
